@@ -66,6 +66,14 @@ def _b(o):
     return z3.BoolVal(bool(o))
 
 
+def _placeholder(obj):
+    """text stand-in for a proxy that reaches C-level formatting: '<sym#N>' (N indexes Explorer.placeholders, so a
+    harness can tell WHICH value was formatted into a string)"""
+    _cur.stats['placeholders'] = _cur.stats.get('placeholders', 0) + 1
+    _cur.placeholders.append(obj)
+    return "<sym#%d>" % (len(_cur.placeholders) - 1)
+
+
 def mk_bool(t):
     t = z3.simplify(t)
     if z3.is_true(t):
@@ -409,8 +417,7 @@ class SInt:
     def __str__(self):
         # only reached through C-level formatting (error / log messages).  A placeholder: if the text were parsed back
         # the real code would fail where the concrete run does not, which the replay-before-report step rejects.
-        _cur.stats['placeholders'] = _cur.stats.get('placeholders', 0) + 1
-        return "<symbolic int>"
+        return _placeholder(self)
 
     def __repr__(self):
         return "<SInt [%d,%d]>" % (self.lo, self.hi)
@@ -861,8 +868,7 @@ class SStr:
     def __str__(self):
         if self.is_concrete():
             return ''.join(chr(x) for x in self.c)
-        _cur.stats['placeholders'] = _cur.stats.get('placeholders', 0) + 1
-        return "<symbolic text>"
+        return _placeholder(self)
 
     def __repr__(self):
         return "<SStr len=%d>" % len(self.c)
@@ -1381,6 +1387,7 @@ class Explorer:
                 self.prefix = self.pending.pop()
                 self.trace, self.pc, self.inputs, self.choices = [], [], {}, {}
                 self.path_memo = {}
+                self.placeholders = []
                 self.defs = []
                 self._fresh = 0
                 self.solver = z3.Solver()
